@@ -1395,6 +1395,7 @@ func (p *Program) VerifyFunc(key string) (res *FuncResult) {
 			}
 			c.atReturn(s, vals)
 		})
+		c.returnsReachable(con)
 		res.Obls = c.obls
 		res.Assumed = c.assumed
 		return
@@ -1406,9 +1407,23 @@ func (p *Program) VerifyFunc(key string) (res *FuncResult) {
 		}
 		c.atReturn(s, vals)
 	})
+	c.returnsReachable(con)
 	res.Obls = c.obls
 	res.Assumed = c.assumed
 	return
+}
+
+// returnsReachable: some return of the function is reachable under the contract (a callee
+// postcondition contradicting the state, or contradictory invariants, would otherwise make every
+// postcondition hold vacuously).  One obligation: the disjunction of the path conditions at the
+// returns must not be refutable.
+func (c *FuncCtx) returnsReachable(con *Contract) {
+	if len(c.retPaths) == 0 {
+		return
+	}
+	o := &Obligation{Name: c.name + "/vacuity:returns", Func: c.name, Kind: "vacuity", Goal: TFalse, Ranges: c.ranges, File: con.File}
+	o.Assume = []*Term{Or(c.retPaths...)}
+	c.obls = append(c.obls, o)
 }
 
 func (c *FuncCtx) noteInputs(name string, v Value) {
@@ -1426,6 +1441,9 @@ func (c *FuncCtx) noteInputs(name string, v Value) {
 
 func (c *FuncCtx) atReturn(st *State, vals []Value) {
 	st = st.clone()
+	if len(c.retPaths) < 24 {
+		c.retPaths = append(c.retPaths, And(st.path...))
+	}
 	for i, r := range c.results {
 		if i < len(vals) {
 			if _, isNil := vals[i].(NilV); isNil {
